@@ -20,7 +20,7 @@ pub fn cell_of_rank_pair(rp: &RankPair) -> Cell {
 }
 
 pub fn check_range(c: &RangeCase) -> CheckResult {
-    vensure!(c.combos.iter().all(|c| c.0 != c.1 && c.0 < 52 && c.1 < 52 && c.2.is_finite() && c.2 >= 0.0), "bad-case", "range outside the domain");
+    vensure!(c.combos.iter().all(|c| c.0 < 52 && c.1 < 52 && c.2.is_finite() && c.2 >= 0.0), "bad-case", "range outside the domain");
     let m = c.map();
     vensure!(m.len() == c.combos.len(), "bad-case", "duplicate combos");
     let r = to_espada(&m);
@@ -144,7 +144,15 @@ pub fn pattern_range(c: &PatternCase) -> RangeCase {
     RangeCase::from_map(&m)
 }
 pub fn check_pattern(c: &PatternCase) -> CheckResult {
-    check_range(&pattern_range(c))
+    let mut r = pattern_range(c);
+    // every seventh pocket pattern also holds the degenerate entries XsXs / XhXh of its rank
+    if c.cell.kind == Kind::Pocket && c.code % 7 == 3 {
+        let mut m = r.map();
+        m.insert((c.cell.hi * 4, c.cell.hi * 4), c.wa);
+        m.insert((c.cell.hi * 4 + 1, c.cell.hi * 4 + 1), c.wb);
+        r = RangeCase::from_map(&m);
+    }
+    check_range(&r)
 }
 
 fn background(seed: u64) -> Vec<(u8, u8, f32)> {
@@ -163,16 +171,16 @@ fn background(seed: u64) -> Vec<(u8, u8, f32)> {
         x = mix64(x);
         let a = (x % 52) as u8;
         let b = ((x >> 8) % 52) as u8;
-        if a != b {
-            m.insert(norm_pair(a, b), 0.75);
-        }
+        // a == b: a degenerate entry (one card twice) is a legal key of a HandRange built through
+        // FromIterator; it belongs to no rank pair and must simply stay among the leftovers
+        m.insert(norm_pair(a, b), if x >> 40 & 1 == 1 { 0.75 } else { 1.0 });
     }
     m.iter().map(|(k, v)| (k.0, k.1, *v)).collect()
 }
 
 pub fn run(ctx: &mut Ctx) {
     ctx.rule = "(1) exhaustive inside one rank pair: every absent/weight-a/weight-b pattern of its combos - all 3^6 x 13 pockets, all 3^4 x 78 suited, all 3^12 = 531,441 x (quick 6, thorough all 78) offsuit rank pairs - embedded in a seeded background of neighbouring complete rank pairs and stray combos; the pocket/suited patterns again with the two weights +0.0 / -0.0; (2) proptest offsuit patterns biased to 'all but one present' and 'one weight differs' over all 78 offsuit pairs; (3) C06's row-pattern ranges with partial cells and arbitrary weights. Oracle: rank_pairs() == the model's complete cells (both directions, weight bit-equal, high card first), orphan_card_pairs() == model leftovers, every combo covered exactly once by the two views. Non-trivial = some rank pair complete or almost complete (all present with one differing weight, or exactly one combo missing); distinct by range contents.".into();
-    ctx.assumptions = vec!["weights finite, >= 0, not NaN (NaN != NaN would make 'same weight' meaningless); -0.0 is a legal weight here and is the same weight as +0.0 (f32 equality), so reported weights are compared with ==".into()];
+    ctx.assumptions = vec!["entries made of one card twice (possible through FromIterator) are legal keys: they belong to no rank pair and stay among the leftovers".into(), "weights finite, >= 0, not NaN (NaN != NaN would make 'same weight' meaningless); -0.0 is a legal weight here and is the same weight as +0.0 (f32 equality), so reported weights are compared with ==".into()];
     let cells = all_cells();
     // pockets and suited: all patterns
     let small: Vec<(Cell, u32)> = cells.iter().filter(|c| c.kind != Kind::Offsuit).flat_map(|c| (0..3u32.pow(c.combos().len() as u32)).map(move |code| (*c, code))).collect();
